@@ -211,9 +211,10 @@ fn c23_run(flags: ValueFlags, kind: OutputKind, relr: bool, raw_value: u64) -> O
 
 /// C23: whatever allocate_resolution reserved is exactly what process_resolution consumes.  One harness per
 /// (output kind, RELR) pair: with both symbolic the formula did not fit in memory (16 GB after 10 minutes).
-fn c23_allocation_matches_writer<const KIND: u8, const RELR: bool>() {
+fn c23_allocation_matches_writer<const KIND: u8, const RELR: bool, const TLS: bool>() {
     let kind = c23_kind(KIND);
     let flags = c23_flags(kind);
+    kani::assume(flags.is_tls() == TLS);
     let relr = RELR;
     let raw_value: u64 = kani::any();
     kani::assume(raw_value >= 0x10000 && raw_value < (1 << 40));
@@ -232,10 +233,26 @@ macro_rules! c23_harness {
         #[kani::stub(TableWriter::process_got_tls_offset, c23_stub_got_tls_offset)]
         #[kani::stub(crate::layout::compute_allocations, c23_stub_compute_allocations)]
         fn $name() {
-            c23_allocation_matches_writer::<$k, $r>();
+            c23_allocation_matches_writer::<$k, $r, false>();
         }
     };
 }
+macro_rules! c23_tls_harness {
+    ($name:ident, $k:expr, $r:expr) => {
+        #[kani::proof]
+        #[kani::unwind(8)]
+        #[kani::stub(std::fmt::format, c23_stub_format)]
+        #[kani::stub(TableWriter::process_got_tls_offset, c23_stub_got_tls_offset)]
+        #[kani::stub(crate::layout::compute_allocations, c23_stub_compute_allocations)]
+        fn $name() {
+            c23_allocation_matches_writer::<$k, $r, true>();
+        }
+    };
+}
+c23_tls_harness!(c23_alloc_tls_static_nonreloc, 0, false);
+c23_tls_harness!(c23_alloc_tls_dyn_nonreloc, 2, false);
+c23_tls_harness!(c23_alloc_tls_dyn_pie, 3, false);
+c23_tls_harness!(c23_alloc_tls_shared, 4, false);
 c23_harness!(c23_alloc_static_nonreloc, 0, false);
 c23_harness!(c23_alloc_static_pie, 1, false);
 c23_harness!(c23_alloc_static_pie_relr, 1, true);
@@ -248,19 +265,14 @@ c23_harness!(c23_alloc_shared_relr, 4, true);
 c23_harness!(c23_alloc_static_nonreloc_relr, 0, true);
 
 /// C09: loading at any base B.  Applies the loader's relative-relocation algorithms to what was emitted.
-#[kani::proof]
-#[kani::unwind(8)]
-#[kani::stub(std::fmt::format, c23_stub_format)]
-#[kani::stub(TableWriter::process_got_tls_offset, c23_stub_got_tls_offset)]
-#[kani::stub(crate::layout::compute_allocations, c23_stub_compute_allocations)]
-fn c09_got_words_follow_the_load_base() {
-    let kind = c23_output_kind();
+fn c09_got_words_follow_the_load_base<const KIND: u8, const RELR: bool>() {
+    let kind = c23_kind(KIND);
     kani::assume(kind.is_relocatable());
     let flags = c23_flags(kind);
     // a plain address symbol (not dynamic / ifunc / absolute / TLS) with a GOT slot
     kani::assume(flags.is_address() && flags.needs_got() && !flags.is_tls());
     kani::assume(!flags.is_dynamic() && !(flags.needs_export_dynamic() && flags.is_interposable()));
-    let relr: bool = kani::any();
+    let relr = RELR;
     let raw_value: u64 = kani::any();
     kani::assume(raw_value >= 0x10000 && raw_value < (1 << 40));
     let base: u64 = kani::any();
@@ -295,12 +307,31 @@ fn c09_got_words_follow_the_load_base() {
         i += 1;
     }
     let _ = wher;
-    kani::cover!(o.n_relr == 1, "RELR path");
-    kani::cover!(o.n_relative == 1, "RELA path");
+    kani::cover!(o.n_relr + o.n_relative == 1, "exactly one relative relocation emitted");
+    kani::cover!(flags.needs_plt(), "symbol that also has a PLT entry");
     // slot 0 holds the symbol address, an extra ifunc-style slot is excluded by the flag constraints above
     assert!(touched[0] == 1, "C09 the GOT slot of an address symbol gets exactly one relative relocation");
     assert!(image[0] == raw_value.wrapping_add(base), "C09 after loading at base B the GOT slot holds address + B");
 }
+
+macro_rules! c09_harness {
+    ($name:ident, $k:expr, $r:expr) => {
+        #[kani::proof]
+        #[kani::unwind(8)]
+        #[kani::stub(std::fmt::format, c23_stub_format)]
+        #[kani::stub(TableWriter::process_got_tls_offset, c23_stub_got_tls_offset)]
+        #[kani::stub(crate::layout::compute_allocations, c23_stub_compute_allocations)]
+        fn $name() {
+            c09_got_words_follow_the_load_base::<$k, $r>();
+        }
+    };
+}
+c09_harness!(c09_got_dyn_pie_relr, 3, true);
+c09_harness!(c09_got_dyn_pie_rela, 3, false);
+c09_harness!(c09_got_static_pie_relr, 1, true);
+c09_harness!(c09_got_static_pie_rela, 1, false);
+c09_harness!(c09_got_shared_relr, 4, true);
+c09_harness!(c09_got_shared_rela, 4, false);
 
 /// C01 (GOT-slot addressing): the slot addresses relocations will use are the slots the writer filled.
 #[kani::proof]
